@@ -186,6 +186,15 @@ func kidFor(tag string, r *rand.Rand) (string, bool) {
 	case "near-ver2":
 		s := gen.YSSHCAKeyID(gen.KeyIDSpec{HW: true, Touch: 1, TransID: tid, Prins: []string{"u"}})
 		return strings.Replace(s, `"ver":1`, `"ver":2`, 1), false
+	case "near-ver257": // 257 = 1 mod 256; 65281 = 1 mod 256 too
+		s := gen.YSSHCAKeyID(gen.KeyIDSpec{HW: true, Touch: 1, TransID: tid, Prins: []string{"u"}})
+		return strings.Replace(s, `"ver":1`, `"ver":`+[]string{"257", "513", "65281"}[r.Intn(3)], 1), false
+	case "many-prins": // a valid KeyID of a few kilobytes
+		var ps []string
+		for i := 40 + r.Intn(200); i > 0; i-- {
+			ps = append(ps, fmt.Sprintf("host-%03d.example.com", i))
+		}
+		return gen.YSSHCAKeyID(gen.KeyIDSpec{HW: true, Touch: 1, TransID: tid, Prins: ps}), true
 	case "near-ver0":
 		s := gen.YSSHCAKeyID(gen.KeyIDSpec{HW: true, Touch: 1, TransID: tid, Prins: []string{"u"}})
 		return strings.Replace(s, `"ver":1`, `"ver":0`, 1), false
@@ -218,7 +227,7 @@ func kidFor(tag string, r *rand.Rand) (string, bool) {
 }
 
 // AllKIDs is the full list of KeyID tags.
-var AllKIDs = []string{"touch", "touchless", "firefighter", "inagent", "nonce", "headless", "unknown-type", "regular", "null-prins", "empty-prins", "near-missing-field", "near-ver2", "near-ver0", "near-conflict", "near-conflict-nonce", "near-conflict-headless-nonce", "near-conflict-headless-ff", "near-conflict-headless-touch", "near-conflict-nonce-touch", "near-trailing-text", "near-two-objects", "near-leading-text", "near-case", "empty", "text"}
+var AllKIDs = []string{"touch", "touchless", "firefighter", "inagent", "nonce", "headless", "unknown-type", "regular", "null-prins", "empty-prins", "many-prins", "near-ver257", "near-missing-field", "near-ver2", "near-ver0", "near-conflict", "near-conflict-nonce", "near-conflict-headless-nonce", "near-conflict-headless-ff", "near-conflict-headless-touch", "near-conflict-nonce-touch", "near-trailing-text", "near-two-objects", "near-leading-text", "near-case", "empty", "text"}
 
 // NewMaterial draws keys and certificates.
 func NewMaterial(r *rand.Rand, cfg Config) *Material {
